@@ -3,9 +3,9 @@ import re
 import stat
 import typing
 from email.header import Header
-from mailbox import Maildir, Message, mbox
+from mailbox import Maildir, Message, NoSuchMailboxError, mbox
 
-from pygopherd import gopherentry
+from pygopherd import GopherExceptions, gopherentry
 from pygopherd.handlers.base import VFS_Real
 from pygopherd.handlers.virtual import Virtual
 
@@ -100,10 +100,15 @@ class MessageHandler(Virtual):
         if hasattr(self, "message"):
             return self.message
 
-        mailbox = iter(self.openmailbox())
-        message = None
-        for _ in range(self.message_num):
-            message = next(mailbox)
+        try:
+            mailbox = iter(self.openmailbox())
+            message = None
+            for _ in range(self.message_num):
+                message = next(mailbox)
+        except (StopIteration, NoSuchMailboxError):
+            raise GopherExceptions.FileNotFound(
+                self.selector, "no such message", self.protocol
+            )
 
         self.message = message
         return self.message
